@@ -377,17 +377,34 @@ fn gen_vehicle(ctx: &mut Ctx, path: &str) -> [u8; 4] {
             [0, 0, 0, 0]
         } else if k == 21 {
             0x00AB_CDEFu32.to_le_bytes()
-        } else {
+        } else if k == 22 {
             0x8123_4567u32.to_le_bytes()
+        } else if k == 23 {
+            // a mod id that starts like a car name: two alphanumerics, then a non-alphanumeric byte, top byte 0
+            [b'A', b'7', 0x9c, 0]
+        } else if k == 24 {
+            [b'X', 0x80, b'G', 0]
+        } else {
+            [0xe9, b'F', b'G', 0]
         }
     };
-    match ctx.pick(path, 23) {
+    match ctx.pick(path, 26) {
         Pick::Zero => nth(0),
         Pick::Nth(k) => nth(k),
         Pick::Random => {
-            let c = ctx.t().below(32);
-            if c < 23 {
+            let c = ctx.t().below(40);
+            if c < 26 {
                 nth(c)
+            } else if c < 32 {
+                // top byte 0 (24-bit skin id), exactly one of the three low bytes not alphanumeric
+                let t = ctx.t();
+                let mut v = [b'A' + (t.u8() % 26), b'0' + (t.u8() % 10), b'a' + (t.u8() % 26), 0];
+                let pos = t.below(3);
+                v[pos] = [0x00u8, 0x20, 0x2d, 0x5f, 0x7f, 0x80, 0x9c, 0xe9, 0xff][t.below(9)];
+                if v == [0, 0, 0, 0] {
+                    v[1] = b'Q';
+                }
+                v
             } else {
                 let mut v = ctx.t().u32().to_le_bytes();
                 // keep it outside the built-in shape (3 alphanumerics + NUL) so that it is a mod id
